@@ -231,8 +231,20 @@ def run(ctx, part):
             before = R.get(obj, size)
             res = R.call(fn, obj)
             if res.caught:
-                # an error is a rejection; for a member it is a wrong answer
+                # for a member an error is a wrong answer.  Seen through a protected block an error hides the return
+                # value, so the same call is repeated WITHOUT a protected block (the documented fallback: errors only set
+                # the sticky code and the callee returns normally): the verdict a plain caller receives must be the truth
+                # - "false for everything else" includes inputs on which an internal routine fails
                 ctx.check(not truth, key + "|unexpected-error", {"err": res.err})
+                rv = R.raw(fn, obj) & 0xFFFFFFFF
+                code = R.err_get_code()          # read and clear the sticky code
+                ctx.add("unprotected_repeats", 1)
+                ctx.check(bool(rv) == bool(truth), key + ("|rejected-unprotected" if truth else "|accepted-unprotected"),
+                          {"returned": rv, "model": bool(truth), "sticky_code": code})
+                lastp = ctypes.c_void_p.from_address(R.ctx + K["off_ctx_t_last"]).value
+                # a throw outside any protected block legitimately parks `last` on the context's own error record
+                ctx.check((not lastp) or lastp == R.ctx + K["off_ctx_t_error"], key + "|handler-chain-after-unprotected-call",
+                          {"last": lastp})
             else:
                 ctx.check(bool(res.i) == bool(truth), key + ("|rejected" if truth else "|accepted"),
                           {"got": res.i, "model": bool(truth)})
@@ -345,6 +357,19 @@ def run(ctx, part):
         yield "subfield|fp", F12.embed(F6.embed(F2.embed(rng.randrange(2, p)))), False
         yield "subfield|fp2", F12.embed(F6.embed(F2.rand(rng))), False
         yield "subfield|fp6", F12.embed(x[0]), False
+        # Fp4 inside Fp12: only the coordinates a[0][0] and a[1][1] are set (and the special values living there)
+        z2 = F2.zero
+
+        def fp4(c0, c1):
+            return ((c0, z2, z2), (z2, c1, z2))
+        yield "subfield|fp4", fp4(F2.rand(rng), F2.rand(rng)), None
+        yield "subfield|fp4", fp4(F2.rand(rng), (rng.randrange(1, p), 0)), None
+        yield "subfield|fp4-pure", fp4(z2, F2.rand(rng)), None
+        yield "subfield|fp4-pure", fp4(z2, (1, 0)), None
+        yield "subfield|small-int", fp4((rng.choice([2, 3, 5, 7]), 0), z2), None
+        yield "subfield|small-int", fp4((p - rng.choice([2, 3]), 0), z2), None
+        yield "subfield|u", fp4((0, 1), z2), None
+        yield "subfield|fp2", fp4(F2.rand(rng), z2), None
         u = F12.mul(conj(x), F12.inv(x))
         yield "unitary-not-cyclotomic", u, None
         cyc = F12.mul(F12.pow(u, p * p), u)
